@@ -33,8 +33,9 @@ try:
     t = run(f"cd {scratch} && PYTHONPATH={scratch} {PY} -m pytest -q -p no:cacheprovider -x -q 2>&1 | tail -1", shell=True)
     print(f"demo clean: exit {r0.returncode}; demo with change: exit {r1.returncode}; suite: {t.stdout.strip()[-60:]}")
     for c in checks:
-        r = run(["/verif/check", c, "--tier", os.environ.get("SEEDEVAL_TIER", "quick")], env=dict(os.environ, VERIF_REPO=scratch), cwd="/verif")
+        r = run(["/verif/check", c, "--tier", os.environ.get("SEEDEVAL_TIER", "quick")], env=dict(os.environ, VERIF_REPO=scratch, VERIF_OUT=scratch + "-out"), cwd="/verif")
         lines = [l for l in r.stdout.splitlines() if l.startswith(("VIOLATION", "INCONCL", c + " ")) or l.startswith("  features")]
         print(f"{c}: exit {r.returncode} | " + " ; ".join(lines[:4])[:500] + " | " + (lines[-1][:160] if lines else ""))
 finally:
     shutil.rmtree(scratch, ignore_errors=True)
+    shutil.rmtree(scratch + "-out", ignore_errors=True)
